@@ -5,7 +5,7 @@ from props._solver import standard_run, solver_sweep
 
 
 def run(ctx):
-    corr, viol = standard_run(ctx, "C02", {"enum", "term", "crash", "stack", "oob"}, 700, 12000,
+    corr, viol = standard_run(ctx, "C02", {"enum", "term", "crash", "stack", "oob"}, 700, 40000,
                               ["split_low_ground", "duplicate_shared_domain"], with_opt=False)
     # the multiset must not depend on the order in which the constraints were posted
     import corr_engine as ce
